@@ -30,7 +30,7 @@ var c14RefAllPrims bool
 
 // c14Package: one random kitchen-sink document
 func c14Package(rng *rand.Rand, idx int) (rcase, []c14op) {
-	g := &jgen{rng: rng, noNullAny: true, refAllPrims: c14RefAllPrims}
+	g := &jgen{rng: rng, noNullAny: true, refAllPrims: c14RefAllPrims, aliasAllEmbeds: idx%2 == 1}
 	sp := &dialect.Spec{CompParams: map[string]dialect.Param{}, CompResponses: map[string]dialect.Response{}, CompHeaders: map[string]dialect.Header{}}
 	bf := baseForms[idx%len(baseForms)]
 	sp.ServerURL, sp.ServerVar = bf.Server, bf.Vars
